@@ -151,6 +151,9 @@ def run(tier, seed):
     if compared < len(scs) // 2:
         raise vlib.Infra("accounting family: only %d of %d cases ran to a healthy end" % (compared, len(scs)))
     c01.standard_families(chk, tier, seed, rng, nrand_quick=40, nrand_thorough=1500, explore=False, matrix=(2, False))
+    from checks import c04
+    sizes = (5, 8) if tier == "quick" else (5, 6, 7, 8, 9, 12)
+    chk.run(c04.hole_scenarios("v1", sizes) + c04.hole_scenarios("v2", sizes), name="holes")
     chk.validate()
 
     def nontrivial(sc, tr):
